@@ -7,6 +7,10 @@ def run(req):
     a = req.get("args", {})
     if fn in ("trajgrad.trap_grad", "trajgrad.min_trap_grad"):
         return _trap(fn, a)
+    if fn == "linop.stack_params":
+        return _stack_params(a)
+    if fn == "linop.reject":
+        return _reject(a)
     if fn == "frame.check":
         return _frame(a)
     if fn == "linop.check":
@@ -550,6 +554,8 @@ def _linop(a):
         return dict(reproduced=True, detail="constructor raised %s: %s for valid parameters" % (type(e).__name__, str(e)[:200]))
     try:
         bad = LN.check(A, props, rs)
+        if "C03" in props:
+            bad += LN.check_algebra(A, cls, v)
     except Exception as e:
         return dict(reproduced=True, detail="%s raised during apply/adjoint: %s" % (type(e).__name__, str(e)[:300]))
     return dict(reproduced=bool(bad), detail="; ".join(bad) or "all clauses hold", op=repr(A))
@@ -563,3 +569,41 @@ def _frame(a):
     if n == 0:
         n, bad = FN.check(name=".".join(name.split(".")[:-1]) if name else None, seed=int(a.get("seed", 0)))
     return dict(reproduced=bool(bad), detail="; ".join(bad[:3]) or ("%d sample calls leave their arguments unchanged" % n), calls=n)
+
+
+def _stack_params(a):
+    import sigpy as sp
+    fn = getattr(sp.linop, a["which"])
+    shapes, axis = [list(s) for s in a["shapes"]], a["axis"]
+    rank = len(shapes[0])
+    axn = axis % rank
+    compat = all(s[d] == shapes[0][d] for s in shapes[1:] for d in range(rank) if d != axn)
+    try:
+        shape, idx = fn(shapes, axis)
+    except Exception as e:
+        return dict(reproduced=compat, detail="raised %s: %s for %s operands %s axis %d" % (type(e).__name__, e, "compatible" if compat else "incompatible", shapes, axis))
+    if not compat:
+        return dict(reproduced=True, detail="accepted incompatible operands %s along axis %d" % (shapes, axis))
+    want_shape = [sum(s[d] for s in shapes) if d == axn else shapes[0][d] for d in range(rank)]
+    want_idx = list(np.cumsum([s[axn] for s in shapes])[:-1])
+    ok = list(shape) == want_shape and [int(i) for i in idx] == [int(i) for i in want_idx]
+    return dict(reproduced=not ok, detail="shape %s indices %s, expected %s %s" % (list(shape), list(idx), want_shape, want_idx))
+
+
+def _reject(a):
+    import sigpy as sp
+    L = sp.linop
+    A, B = L.Resize([a["a"]], [a["b"]]), L.Resize([a["c"]], [a["d"]])
+    kind = a["kind"]
+    fits = {"compose": a["b"] == a["c"], "add": a["a"] == a["c"] and a["b"] == a["d"], "apply": a["b"] == a["c"]}[kind]
+    try:
+        if kind == "compose":
+            L.Compose([A, B])
+        elif kind == "add":
+            L.Add([A, B])
+        else:
+            A.apply(np.zeros([a["c"]]))
+        ok = True
+    except Exception:
+        ok = False
+    return dict(reproduced=ok != fits, detail="%s %s although the shapes %s" % (kind, "accepted" if ok else "rejected", "fit" if fits else "do not fit"))
